@@ -432,6 +432,45 @@ def h_unknown(position):
     return ['unknown', position, 'skipped']
 
 
+def h_nonce_len(where):
+    """the Nonce payload at the limits of its size (RFC 7296 3.9: 16 to 256 octets, inclusive): a datagram written by the independent encoder
+    with a nonce of EVERY length 0..300 (the length is a solver-driven case split, the octets are solver variables); every length the RFC allows
+    parses, yields the same octets and serialises back to the same datagram, and the payload class accepts exactly the lengths the parser does"""
+    from symx import core
+    eng = core.engine()
+    m = MODS['message']
+    n = eng.sym_int('nonce_len', 0, 300)
+    k = eng.concretize(n, 0, 300) if not isinstance(n, int) else n
+    octets = eng.sym_bytes('nonce', 300)[:k]
+    body = core.SymBytes.lift(b'\0\0') + core.SymBytes.lift(_be(4 + k, 2)) + octets
+    hdr = eng.sym_bytes('spis', 16) + bytes([40]) + b'\x20' + bytes([34 if where == 'init' else 37]) + b'\x08' + eng.sym_bytes('mid', 4) + _be(28 + 4 + k, 4)
+    d = core.SymBytes.lift(hdr) + body
+    legal = 16 <= k <= 256
+    try:
+        msg = m.Message.parse(d)
+    except m.IkeSaError as ex:
+        if legal:
+            return {'class': ['nonce_len'], 'violation': f'a datagram with a Nonce payload of {k} octets (RFC 7296 3.9 allows 16..256) is rejected: {type(ex).__name__}: {ex}'}
+        parsed = False
+    else:
+        parsed = True
+        if len(msg.payloads) != 1 or msg.payloads[0].type != m.Payload.Type.NONCE:
+            return {'class': ['nonce_len'], 'violation': 'the Nonce payload was not decoded as one'}
+        got = msg.payloads[0].nonce
+        eng.prove(core.SymBytes.lift(got) == octets, f'the decoded nonce of {k} octets is not the nonce on the wire')
+        b2 = msg.to_bytes()
+        eng.prove(core.SymBytes.lift(b2) == d, f'serialise-after-parse changes a datagram with a Nonce payload of {k} octets')
+    try:
+        m.PayloadNONCE(bytes(k))
+        built = True
+    except m.IkeSaError:
+        built = False
+    if built != parsed:
+        return {'class': ['nonce_len'], 'violation': f'a nonce of {k} octets is ' + ('accepted by the payload class but rejected by the parser' if built else
+                                                                                     'accepted by the parser but cannot be expressed with the payload class')}
+    return ['nonce_len', 'accepted' if parsed else 'rejected']
+
+
 def build_instances(tier):
     inst = []
     for ft in sorted(int(k) for k in MODS['message'].Message.type_2_payload if int(k) != 46) + ['other']:
@@ -446,6 +485,9 @@ def build_instances(tier):
     for k in ('KE', 'NOTIFY', 'NOTIFY0', 'DELETE', 'DELETE3', 'NONCE', 'ID', 'AUTH', 'VENDOR', 'TS', 'TS6', 'SA', 'SA3', 'DELETEx17', 'DELETEx70', 'TSx20') + \
             (() if tier == 'quick' else ('DELETEx33', 'DELETEx255', 'TSx64')):
         inst.append(Instance(f'encode {k}', h_encode, (k,), must_reach=[('encoded', lambda o: o[0] == 'encoded')]))
+    for where in ('init', 'informational'):
+        inst.append(Instance(f'Nonce payload of every length 0..300 ({where})', h_nonce_len, (where,), engine_kw={'max_ticks': 10 ** 7},
+                             must_reach=[('accepted', lambda o: o == ['nonce_len', 'accepted']), ('rejected', lambda o: o == ['nonce_len', 'rejected'])]))
     known = sorted(int(k) for k in MODS['message'].Message.type_2_payload)
     for n in {'quick': (28, 31), 'thorough': (28, 29, 30, 31)}[tier]:
         inst.append(Instance(f'idempotence n={n}', h_idem, (n, None)))
